@@ -58,7 +58,10 @@ PROBE_REQUIRED = (["m_%s_%s_%s" % (c, st, r) for c in ("start", "pause", "edit")
 CLOCK = dict(binary="oracle", mode="clock", cfg="")
 
 # histories recorded (VERIF_RECORD_DIR) and replayed by the cross-module checks C11 / C12
-RECORD = [dict(binary="oracle", n=T(3, 12), len=30, cfg="users=2,provs=3,funds=60,maxfeeds=3,maxtimeout=3" + ",bundle=30")]
+RECORD = [dict(binary="oracle", n=T(3, 12), len=30, cfg="users=2,provs=3,funds=60,maxfeeds=3,maxtimeout=3" + ",bundle=30"),
+          # one service call whose providers are priced in four denoms (stake + three denoms with an exchange-rate
+          # feed each): whatever the end-blocker derives from the provider list must not depend on map order (C11-s5)
+          dict(binary="oracle", mode="denoms", n=1, len=1, cfg="")]
 
 PROPS = {
     "C17": ModuleCheck("oracle", "Oracle.tla", "OracleTrace.tla", "OracleTrace.cfg", ORACLE_CLAUSES_C17,
